@@ -95,7 +95,7 @@ def directory_case(draw):
             seq.append(k)
     distractors = draw(st.lists(st.sampled_from(["foreign", "absent", "solvent", "system-file", "copy-gro",
                                                  "copy-itp", "missing-coords", "same-basename-gro", "same-basename-itp",
-                                                 "shared-end-gro", "lookalike"]),
+                                                 "shared-end-gro", "lookalike", "snapshots"]),
                                 min_size=0, max_size=5, unique=True))
     shared_only = []
     if draw(st.integers(0, 3)) == 0:
@@ -195,6 +195,17 @@ def build_directory(case, rename_end=False):
             indep.write_gro(p, "second copy", spec_records(case["species"][case["dup_of"]]["end"]), [6.0, 6.0, 6.0])
             listing.append(p)
             candidates[nm]["coor_AA"].append(p)
+        elif dname == "snapshots":
+            # a folder of further coordinate snapshots of one species handed over with the other candidates (--auto *),
+            # more of them than the process may hold open at once (the driver lowers its open-file limit)
+            nm = "SP%d" % case["dup_of"]
+            sub = os.path.join(inputs, "snapshots")
+            os.makedirs(sub, exist_ok=True)
+            for k in range(56):
+                p = os.path.join(sub, "%s_AA_t%03d.gro" % (nm, k))
+                indep.write_gro(p, "snapshot %d" % k, spec_records(case["species"][case["dup_of"]]["end"]), [6.0, 6.0, 6.0])
+                listing.append(p)
+                candidates[nm]["coor_AA"].append(p)
         elif dname == "copy-itp":
             nm = "SP%d" % case["dup_of"]
             p = os.path.join(inputs, "%s_AA_second.itp" % nm)
@@ -241,8 +252,8 @@ def build_directory(case, rename_end=False):
                 candidates[nm]["coor_AA"].append(p)
         elif dname == "missing-coords":
             nm = "SP%d" % case["missing_of"]
-            if ("copy-gro" in case["distractors"] or "same-basename-gro" in case["distractors"]) \
-                    and case["dup_of"] == case["missing_of"]:
+            if ("copy-gro" in case["distractors"] or "same-basename-gro" in case["distractors"]
+                    or "snapshots" in case["distractors"]) and case["dup_of"] == case["missing_of"]:
                 continue
             listing.remove(triples[nm][1])
             incomplete.add(nm)
@@ -293,7 +304,9 @@ def check_discovery(case):
     cwd = D["dir"]
     known = [[spell(p, sp_mol, cwd) for p in D["triples"][nm]] for nm in known_names]
     orders = listing_orders(D["listing"], case["orders"], case["seed"])
-    jobs = [{"ref": D["system"], "files": [spell(p, sp_auto, cwd) for p in o], "known": known, "cwd": cwd} for o in orders]
+    nofile = 48 if "snapshots" in case["distractors"] else None
+    jobs = [{"ref": D["system"], "files": [spell(p, sp_auto, cwd) for p in o], "known": known, "cwd": cwd, "nofile": nofile}
+            for o in orders]
     # the command line itself (argument handling around the discovery), pipeline replaced by a recorder
     complete_all = [nm for nm in sorted(D["triples"]) if nm not in D["incomplete"]]
     excl = ["SP%d" % k for k in case["exclude"] if "SP%d" % k not in known_names]
@@ -304,7 +317,7 @@ def check_discovery(case):
     if excl:
         argv += ["--exclude"] + excl
     argv += ["-o", os.path.join(D["dir"], "never_written.gro")]
-    main_job = {"main": argv, "cwd": cwd}
+    main_job = {"main": argv, "cwd": cwd, "nofile": nofile}
     main_seen = {}
     outcomes = {}
     key_orders = {}
